@@ -1,7 +1,7 @@
 """C06 - rest: each call sends exactly the request its directive describes."""
 import json
 
-from vlib import core, pkgrun, restgen, sexp
+from vlib import core, pkgrun, restgen, restleg, sexp
 from vlib.sexp import Q
 
 PROP = "C06"
@@ -373,6 +373,19 @@ def run(ctx, obl):
             res.hist("features", f)
         res.hist("calls", str(len(c["calls"])))
     core.compare_cases(ctx, res, cases, impl, model, sig=sig, nontrivial=lambda c, m, im: len(c["calls"]) >= 1 and m["region"] != "Out")
+    # the recognisers against the real regexps (in-process, verif hooks): random texts + every rendered directive of this run
+    docs = []
+    for c in cases:
+        i = c["iface"]
+        if i.get("headers"):
+            docs.append("shoot: headers=" + ",".join("{%s:%s}" % kv for kv in i["headers"]) + "\n")
+        for m in i["methods"]:
+            docs.append(restgen.method_doc(m))
+        for st in i.get("structs", []):
+            for f in st["fields"]:
+                if f.get("alias"):
+                    docs.append("alias=%s" % f["alias"])
+    restleg.run(ctx, res, ctx.n(8000, 80000), extra=docs)
     res.extra["calls_observed"] = sum(len(c["calls"]) for c in cases)
     res.rule = ("seeded random RestClient interfaces (1-4 methods; five verbs in four spellings; quoted/unquoted paths with 0-3 placeholders, literal "
                 "segments with punctuation, optional `;` tails; alias directives for path and query parameters; scalar and pointer-to-scalar parameters "
@@ -382,6 +395,8 @@ def run(ctx, obl):
                 "recording RoundTripper; 3-4 argument vectors per method incl. nil pointers and URL-unsafe strings; plus one shaped interface per finding "
                 "region and per verb. The model's symbolic url.JoinPath / Values.Encode / Header.Add are evaluated by the real functions (harness cmd/rtconf ext), "
                 "json.Marshal by the oracle on the same argument. non-trivial = distinct interface+calls with at least one call inside the quantifier")
+    res.rule += ("; plus an in-process differential of the five directive recognisers against the real regexps of cook.go on %s random and rendered texts"
+                 % res.extra.get("recogniser_strings_compared"))
     res.assumptions = ["url.JoinPath, url.Values.Encode, http.Header.Add, json.Marshal, fmt %v are the real ones on both sides",
                        "the doc text handed to the recognisers is ast.CommentGroup.Text() of the rendered comment (reconstructed by the renderer)",
                        "base URLs are well-formed absolute URLs without a query"]
